@@ -39,7 +39,11 @@ type c10Table struct {
 func c10Tables() []c10Table {
 	return []c10Table{
 		{"regular 2x2 with header", func(t tabular.Table) { t.AddHeaders("h1", "h2"); t.AddRowItems("a", "b"); t.AddRowItems("c", "d") }},
-		{"ragged", func(t tabular.Table) { t.AddHeaders("h1", "h2", "h3"); t.AddRowItems("a"); t.AddRowItems("b", "c", "d") }},
+		{"ragged", func(t tabular.Table) {
+			t.AddHeaders("h1", "h2", "h3")
+			t.AddRowItems("a")
+			t.AddRowItems("b", "c", "d")
+		}},
 		{"zero-cell row", func(t tabular.Table) { t.AddHeaders("h1", "h2"); t.AddRowItems(); t.AddRowItems("a", "b") }},
 		{"separators first/last/consecutive", func(t tabular.Table) {
 			t.AddHeaders("h1", "h2")
@@ -50,11 +54,20 @@ func c10Tables() []c10Table {
 			t.AddRowItems("c", "d")
 			t.AddSeparator()
 		}},
-		{"multi-line and wide", func(t tabular.Table) { t.AddHeaders("h\n1", "ｗｗ"); t.AddRowItems("a\nbb\nccc", "é"); t.AddRowItems("x", "y\n") }},
+		{"multi-line and wide", func(t tabular.Table) {
+			t.AddHeaders("h\n1", "ｗｗ")
+			t.AddRowItems("a\nbb\nccc", "é")
+			t.AddRowItems("x", "y\n")
+		}},
 		{"no header", func(t tabular.Table) { t.AddRowItems("a", "b"); t.AddRowItems("c") }},
 		{"empty header texts", func(t tabular.Table) { t.AddHeaders("", ""); t.AddRowItems("a", "b") }},
 		{"header only", func(t tabular.Table) { t.AddHeaders("h1", "h2") }},
-		{"post-attach cell", func(t tabular.Table) { t.AddHeaders("h1", "h2"); r := t.AppendNewRow(); r.Add(tabular.NewCell("late")); r.Add(tabular.NewCell("later")) }},
+		{"post-attach cell", func(t tabular.Table) {
+			t.AddHeaders("h1", "h2")
+			r := t.AppendNewRow()
+			r.Add(tabular.NewCell("late"))
+			r.Add(tabular.NewCell("later"))
+		}},
 		{"hostile texts", func(t tabular.Table) { t.AddHeaders(`a"b`, "c|d"); t.AddRowItems("<x>", "q,r"); t.AddRowItems(nil, 5) }},
 		{"empty table", func(t tabular.Table) {}},
 		{"header shorter than rows", func(t tabular.Table) { t.AddHeaders("h1"); t.AddRowItems("a", "b") }},
